@@ -37,6 +37,12 @@ CHECKS = {
         "checked by language equivalence on all element lists up to a length bound; merge_intervals by CrossHair with symbolic endpoints.",
    note="Trusted: NumLang/Canon regex builders (self-tested against Python int() on every run), z3 5.1.0 (cvc5 1.0.3 cross-checks where it answers within 1.2 s). Precondition: L(R) contains numerals only. Known finding: symmetric full range.",
    design="§3 C15"),
+ "C10": dict(level="other", technique="CrossHair (z3): exhaustive solver-driven enumeration of all input strings up to a length bound through the real Earley parser, independent fixpoint recogniser as oracle",
+   text=BOUNDED + "Real EarleyParser.parse / ISLaSolver.parse on EVERY string up to length 4 (quick) / 6 (thorough) over the alphabet abstraction of 10 grammars "
+        "(nullable chains, left/right recursion, ambiguity, multi-character terminals, multi-alternative and recursive start symbols, non-start entry); "
+        "CrossHair's 'Confirmed over all paths' = exhaustive within the bound. Membership vs an independent recogniser; trees validated and must spell the input.",
+   note="Trusted: recogniser + tree validator in the harness; alphabet abstraction (parser compares characters by == only). [decoder] use of the engine: after the input is realised the parser runs natively. Outside: longer strings, other grammars.",
+   design="§3 C10"),
 }
 NOT_APPLICABLE = {
  "C21": "needs end-to-end solve() on the shipped formalizations plus external validators (docutils, XML parser): the solver loop is a heap algorithm around Z3 calls that no engine here can encode, and the validators are not solver objects",
